@@ -313,7 +313,14 @@ func (m *MinDistanceToShapeIndexTarget) visitContainingShapes(index *ShapeIndex,
 	// the query index, except for one special case to handle full polygons.
 	//
 	// TODO(roberts): Do this by merge-joining the two ShapeIndexes.
-	for _, shape := range m.index.shapes {
+	// Visit the target's shapes in increasing id order (not in map order): the
+	// visitor may stop early, e.g. once MaxResults containing shapes are found,
+	// and which shapes are reported must not vary from call to call.
+	for id := int32(0); id < m.index.nextID; id++ {
+		shape := m.index.Shape(id)
+		if shape == nil {
+			continue
+		}
 		numChains := shape.NumChains()
 		// Shapes that don't have any edges require a special case (below).
 		testedPoint := false
